@@ -1,7 +1,7 @@
 from sqv.driver import Obligation
 
 SIZED = ["a + b", "x = a\nx += b\nx", "x = [a]\nx[0] += b\nx[0]", "x = a\nx *= k\nx", "x = [a]\nx[0] *= k\nx[0]",
-         "a + b + a", "[a, b] | reduce((p, q) => p + q)"]
+         "a + b + a", "[a, b] | reduce((p, q) => p + q)", "[a, b] | sum", "sum([a, b, a])", "values({'p': a, 'q': b}) | sum"]
 SMALL = [
     ("list_literal", "[a, b, k]", 3), ("dict_literal", "{'p': a, 'q': b}", 2), ("map", "a | map(v => v)", 0),
     ("filter", "a | filter(v => v)", 0), ("sorted", "sorted(a)", 0), ("reversed", "reversed(a)", 0), ("enumerate", "enumerate(a)", 0),
